@@ -185,6 +185,39 @@ def eval_direct_1d(g, name, dir, d, par, res=None):
     return viols
 
 
+def eval_int_1d(g, res=None):
+    """integer-valued interior states handed to namedBC as int64/int32 arrays: the boundary state is that of the same values as float64"""
+    model = space.euler.euler1d(gamma=g)
+    R, U, P = [x.ravel() for x in np.meshgrid([1.0, 2.0, 5.0], [-3.0, -1.0, 0.0, 1.0, 2.0], [1.0, 3.0, 4.0], indexing="ij")]
+    par = {"ptot": 9.3, "rttot": 2.1, "p": 2.6, "prim": [1.3, 0.7, 2.2]}
+    viols = []
+    for name in BC1D + ["dirichlet"]:
+        for dir in (-1, 1):
+            with np.errstate(all="ignore"):
+                ref = model.namedBC(name, dir, [R.copy(), U.copy(), P.copy()], dict(par))
+                for dt in (np.int64, np.int32):
+                    if res is not None:
+                        res.evals += R.size
+                        res.nontrivial += R.size
+                    try:
+                        got = model.namedBC(name, dir, [R.astype(dt), U.astype(dt), P.astype(dt)], dict(par))
+                    except Exception as e:
+                        viols.append(("C16/euler1d/%s/integer-typed-data/raises" % name, "namedBC(%r, dir=%d) raised %r for %s interior states" % (name, dir, e, np.dtype(dt).name),
+                                      {"kind": "int1d", "gamma": g}))
+                        continue
+                    if not space.same_bits([np.broadcast_to(np.asarray(x, float), R.shape) for x in got], [np.broadcast_to(np.asarray(x, float), R.shape) for x in ref]):
+                        viols.append(("C16/euler1d/%s/integer-typed-data" % name, "namedBC(%r, dir=%d) of %s interior states differs from that of the same values as float64" % (
+                            name, dir, np.dtype(dt).name), {"kind": "int1d", "gamma": g}))
+    return viols
+
+
+def shard_int_1d(g):
+    res = core.Res()
+    for s_, w, c in eval_int_1d(g, res):
+        res.violation(s_, w, c)
+    return res
+
+
 BC1D = ["insub", "insub_cbc", "insup", "outsub", "outsub_prim", "outsub_qtot", "outsub_rh", "outsub_nrcbc", "outsup", "sym"]
 
 
@@ -537,6 +570,7 @@ def run(ctx):
     gs = [1.4, 1.2] + ([5.0 / 3.0, 2.0] if ctx.thorough else [])
     ctx.pmap("direct-1d", shard_direct_1d, [(g, ctx.tier) for g in gs])
     ctx.pmap("dispatch-1d", shard_disc_1d, [(g, ctx.tier) for g in gs])
+    ctx.pmap("integer-typed-states-1d", shard_int_1d, gs)
     ctx.pmap("direct-2d", shard_2d, [(g, ctx.tier) for g in gs])
     ctx.pmap("dispatch-2d", shard_disc_2d, [(g, ctx.tier) for g in gs[:2]])
     ctx.pmap("shallowwater+dirichlet", shard_misc, [{"kind": "misc", "sub": "sw", "g": 9.81}, {"kind": "misc", "sub": "sw", "g": 1.0},
@@ -548,6 +582,8 @@ def replay(case):
     if k == "direct1d":
         d = np.array([[x] for x in case["d"]], float)
         v = eval_direct_1d(case["gamma"], case["bc"], case["dir"], d, case["par"])
+    elif k == "int1d":
+        v = eval_int_1d(case["gamma"])
     elif k == "disc1d":
         v = eval_disc_1d(case["gamma"], case["bl"], case["br"], case["parL"], case["parR"], case["cells"], None, case.get("recon", "extrapol1"))
     elif k == "direct2d":
